@@ -2,6 +2,7 @@
 //! vharness <prop> replay <file>                                   — re-run the cases of a file, print lines
 mod common;
 mod c04;
+mod c09;
 mod c10;
 mod jws;
 mod jws_storage;
@@ -27,6 +28,7 @@ fn props() -> Vec<Prop> {
     Prop { id: "C01", exec: jws::exec, classify: no_class, gen: jws::gen_c01 },
     Prop { id: "C04", exec: c04::exec, classify: no_class, gen: c04::gen },
     Prop { id: "C08", exec: jws::exec, classify: no_class, gen: jws::gen_c08 },
+    Prop { id: "C09", exec: c09::exec, classify: no_class, gen: c09::gen },
     Prop { id: "C10", exec: c10::exec, classify: c10::classify, gen: c10::gen },
     Prop { id: "C11", exec: c11::exec, classify: no_class, gen: c11::gen },
     Prop { id: "C12", exec: c12::exec, classify: no_class, gen: c12::gen },
